@@ -59,12 +59,21 @@ impl Default for Options {
 
 pub trait Parse: Sized {
 	fn parse_slice(content: &[u8]) -> Result<(Self, CodeMap), Error> {
-		Self::parse_utf8(utf8_decode::Decoder::new(content.iter().copied()))
-			.map_err(Error::io_into_utf8)
+		Self::parse_slice_with(content, Options::default())
 	}
 
 	fn parse_slice_with(content: &[u8], options: Options) -> Result<(Self, CodeMap), Error> {
-		Self::parse_utf8_with(utf8_decode::Decoder::new(content.iter().copied()), options)
+		// The well-formed prefix is parsed as text; the first ill-formed
+		// sequence, if any, is a stream error at its own offset.
+		let (valid, ill_formed) = match std::str::from_utf8(content) {
+			Ok(s) => (s, None),
+			Err(e) => (
+				std::str::from_utf8(&content[..e.valid_up_to()]).unwrap(),
+				Some(Err(io::Error::from(io::ErrorKind::InvalidData))),
+			),
+		};
+
+		Self::parse_utf8_with(valid.chars().map(Ok).chain(ill_formed), options)
 			.map_err(Error::io_into_utf8)
 	}
 
